@@ -31,6 +31,7 @@ type Plan struct {
 	Avoid    []string          `json:"avoid,omitempty"` // known-finding triggers not to generate
 	LimitMs  int64             `json:"limit_ms,omitempty"`
 	MaxSteps int               `json:"max_steps,omitempty"`
+	Variant  string            `json:"variant,omitempty"` // dual-run properties: "A" / "B"
 }
 
 // Violation is one oracle failure.
@@ -63,6 +64,13 @@ type Outcome struct {
 	Trace      []string       `json:"trace,omitempty"` // when tracing
 	Tooling    string         `json:"tooling,omitempty"`
 	Sites      int            `json:"sites"`
+	Emit       []string       `json:"-"` // emission log (dual-run comparison)
+}
+
+// DualProp marks properties whose plans are executed twice (variants "A" and
+// "B") with identical schedule, clock and faults; the emission logs must agree.
+type DualProp interface {
+	Dual() bool
 }
 
 // Prop is one property's machinery.
@@ -152,6 +160,17 @@ func (e *Env) Avoids(name string) bool {
 		}
 	}
 	return false
+}
+
+// Emit records something the interceptor emitted or recorded (dual-run comparison).
+//
+//go:norace
+func (e *Env) Emit(seam string, data []byte) {
+	h := uint64(14695981039346656037)
+	for _, b := range data {
+		h = (h ^ uint64(b)) * 1099511628211
+	}
+	e.out.Emit = append(e.out.Emit, fmt.Sprintf("%s len=%d fnv=%016x", seam, len(data), h))
 }
 
 // SetSample stores a short human-readable description of the case.
@@ -269,12 +288,12 @@ func execute(t *testing.T, p *Plan, trace bool, out *Outcome) {
 		if len(s.Stuck) > 0 {
 			out.Tooling = "goroutine blocked outside the simulator: " + strings.Join(s.Stuck, "; ")
 		}
+		s.AcquireAll()
 		if len(s.Panics) == 0 && !res.Truncated {
 			for _, f := range e.finals {
 				f()
 			}
 		}
-		s.AcquireAll()
 		e.mergeStats()
 		out.Hash = s.Hash()
 		out.Steps = s.Steps
